@@ -207,6 +207,29 @@ def h_time_dst(pref, zone, y0=2021, y1=2021):
     return fn
 
 
+def h_time_gap(pref, zone, y0=2021, y1=2021):
+    """time-only string naming a wall-clock time that does NOT exist (spring-forward gap) on the reference's date or a
+    neighbouring one in the TIMEZONE: which day is chosen is not specified there, but the written time of day is kept"""
+    from . import zones
+
+    def fn():
+        b = C.sym_base("b", y0, y1)
+        t = C.time_fields("t", "HM")
+        s = tmpl([("H", 2), ":", ("M", 2)], t)
+        wit = dict(C.base_witness(b), tH=t["H"], tM=t["M"])
+        tab = zones.table(zone, y0 - 1, y1 + 1)
+        r = z_tod_hm(t)
+        core.assume(mkbool(z3.Or(*[zones.z_local_count(tab, b._ord() + k, r, 0) for k in (-1, 0, 1)])))
+        dd = C.api(s, languages=["en"], settings=_settings(b, pref, {"TIMEZONE": zone}))
+        do = dd.date_obj
+        if do is None:
+            return C.outcome(False, wit, "none")
+        keep = z3.And(_zi(do.hour) == _zi(t["H"]), _zi(do.minute) == _zi(t["M"]), _zi(do.second) == 0,
+                      _zi(do.microsecond) == 0, do.tzinfo is None)
+        return C.outcome(keep, wit, "parsed")
+    return fn
+
+
 def z_tod_hm(t):
     return (_zi(t["H"]) * 60 + _zi(t["M"])) * 60 * 1000000
 
@@ -315,7 +338,7 @@ def tasks(tier, seed):
             add("weekday3:%s:future" % C.EN_DAY3[wd], "h_weekday", {"wd": wd, "pref": "future", "abbr": True})
     for p in PREFS:
         add("time:%s:UTC" % p, "h_time", {"pref": p})
-    for tz in (["+0530"] if quick else ["+0530", "-0800", "+1245", "-0330"]):
+    for tz in ([["+0530", "-0330"], ["+1245", "-0930"]][seed % 2] if quick else ["+0530", "-0800", "+1245", "-0330", "-0930", "-0230"]):
         for p in ("past", "future"):
             add("time:%s:%s" % (p, tz), "h_time", {"pref": p, "tz": tz})
     from . import zones
@@ -323,6 +346,9 @@ def tasks(tier, seed):
     for j, z in enumerate(dz if not quick else dz[seed % max(1, len(dz)):][:1]):
         for p in (("past", "future") if quick else PREFS):
             add("time-dst:%s:%s" % (p, z), "h_time_dst", {"pref": p, "zone": z}, 240)
+    for j, z in enumerate([z for z in dz if z != "Asia/Kolkata"] if not quick else [z for z in dz if z != "Asia/Kolkata"][(seed + 1) % 3:][:1]):
+        for p in (("past", "future") if not quick else (("past", "future")[seed % 2],)):
+            add("time-gap:%s:%s" % (p, z), "h_time_gap", {"pref": p, "zone": z}, 200)
     months = sorted({2, seed % 12 + 1, (seed + 7) % 12 + 1}) if quick else range(1, 13)
     for mi in months:
         for p in PREFS:
@@ -346,9 +372,9 @@ def build_spec(task, viol):
     st = {"PREFER_DATES_FROM": a["pref"], "TIMEZONE": a.get("tz", "UTC"), "RELATIVE_BASE": C.base_from_witness(w)}
     if fn == "h_weekday":
         s = (C.EN_DAY3 if a.get("abbr") else C.EN_DAYS)[a["wd"]].capitalize()
-    elif fn in ("h_time", "h_time_dst"):
+    elif fn in ("h_time", "h_time_dst", "h_time_gap"):
         s = "%02d:%02d" % (w["tH"], w["tM"])
-        if fn == "h_time_dst":
+        if fn in ("h_time_dst", "h_time_gap"):
             st["TIMEZONE"] = a["zone"]
     elif fn == "h_month":
         s = C.EN_MONTHS[a["mi"] - 1].capitalize()
@@ -389,6 +415,9 @@ def native_check(spec):
             exp = _dt.datetime.combine(b.date() - _dt.timedelta(days=(b.weekday() - wd) % 7), _dt.time())
         bad = got != exp
         out.update(expected=exp.isoformat())
+    elif fn == "h_time_gap":
+        bad = (got.hour, got.minute, got.second, got.microsecond) != (w["tH"], w["tM"], 0, 0) or got.tzinfo is not None
+        out.update(expected="(the written time of day %02d:%02d, naive)" % (w["tH"], w["tM"]))
     elif fn == "h_time_dst":
         from . import zones
         tab = zones.table(a["zone"], a.get("y0", 2021) - 1, a.get("y1", 2021) + 1)
@@ -458,6 +487,8 @@ def classify_known(spec, verdict, known):
     ids0 = {k["id"] for k in known}
     if verdict.get("local_date") and FID_LD in ids0:
         return FID_LD
+    if spec["fn"] == "h_time_gap":
+        return None
     if spec["fn"] == "h_time_dst":
         return "C09-month-reset" if verdict.get("month_reset") and "C09-month-reset" in ids0 else None
     if spec["fn"] not in ("h_weekday", "h_time") or "expected" not in verdict or "got" not in verdict:
